@@ -110,6 +110,9 @@ func runC07(c *report.Ctx) {
 	ruleReadySet(c, true, false)
 	ruleQueueHeadroom(c) // a rescan that spans several batches is re-queued by a non-blocking push: the slot must exist
 	ruleBestHeightReadWhileParked(c)
+	ruleChainFetcherHasNoMemory(c)
+	ruleParkedHandlerOnlyWaits(c)
+	ruleFilterSiblingsAgreeOnFlags(c)
 	ruleStakingUseMarksStandardForm(c)
 
 	c.Rule("select-gate", "UseWallet selects a keystore only after CheckReady succeeded and reported ready", 1)
